@@ -619,3 +619,7 @@ mod tests {
         }
     }
 }
+
+#[cfg(kani)]
+#[path = "/verif/kani/storage/bulkload.rs"]
+mod kani_harness;
